@@ -193,11 +193,72 @@ func runC11(s *sut.SUT, cs c11Case) (rule, detail string, nontrivial bool) {
 	conn := newFlowConn(cs.MaxMsgs, cs.MaxBytes)
 	sctx, cancel := context.WithCancel(ctx)
 	done := make(chan error, 1)
-	conn.recv <- &actions.MessageStreamRequest{FlowControl: &actions.FlowControl{MaxMessages: cs.MaxMsgs, MaxBytes: cs.MaxBytes}}
-	go func() {
-		ms := &actions.MessageStreamer{Client: s.Client, SubscriptionName: c11S, AutomaticNack: true}
-		done <- ms.Go(sctx, conn)
-	}()
+	var sendAck, sendNack, sendNack0 func(ids []uuid.UUID)
+	var sendMixed func(zero, extend []uuid.UUID)
+	strs := func(ids []uuid.UUID) []string {
+		out := make([]string, len(ids))
+		for i, id := range ids {
+			out[i] = id.String()
+		}
+		return out
+	}
+	if cs.Grpc {
+		// the real StreamingPull RPC: requests go through the gRPC adaptation layer
+		st, err := s.Sub.StreamingPull(sctx)
+		if err != nil {
+			cancel()
+			return "harness", err.Error(), false
+		}
+		if err := st.Send(&pubsubpb.StreamingPullRequest{Subscription: c11S, StreamAckDeadlineSeconds: 60, MaxOutstandingMessages: int64(cs.MaxMsgs), MaxOutstandingBytes: int64(cs.MaxBytes)}); err != nil {
+			cancel()
+			return "harness", err.Error(), false
+		}
+		go func() {
+			for {
+				resp, err := st.Recv()
+				if err != nil {
+					done <- nil
+					return
+				}
+				var ds []*actions.SubscriptionMessageDelivery
+				for _, rm := range resp.ReceivedMessages {
+					if id, err := uuid.Parse(rm.AckId); err == nil {
+						ds = append(ds, &actions.SubscriptionMessageDelivery{ID: id, Payload: rm.Message.Data})
+					}
+				}
+				conn.record(ds)
+			}
+		}()
+		sendAck = func(ids []uuid.UUID) { _ = st.Send(&pubsubpb.StreamingPullRequest{AckIds: strs(ids)}) }
+		sendNack0 = func(ids []uuid.UUID) {
+			_ = st.Send(&pubsubpb.StreamingPullRequest{ModifyDeadlineAckIds: strs(ids), ModifyDeadlineSeconds: make([]int32, len(ids))})
+		}
+		sendNack = sendNack0
+		sendMixed = func(zero, extend []uuid.UUID) {
+			req := &pubsubpb.StreamingPullRequest{}
+			// interleave: the ids to nack (deadline 0) and the ids to extend (deadline 30) in one request
+			for i := 0; i < len(zero) || i < len(extend); i++ {
+				if i < len(extend) {
+					req.ModifyDeadlineAckIds = append(req.ModifyDeadlineAckIds, extend[i].String())
+					req.ModifyDeadlineSeconds = append(req.ModifyDeadlineSeconds, 30)
+				}
+				if i < len(zero) {
+					req.ModifyDeadlineAckIds = append(req.ModifyDeadlineAckIds, zero[i].String())
+					req.ModifyDeadlineSeconds = append(req.ModifyDeadlineSeconds, 0)
+				}
+			}
+			_ = st.Send(req)
+		}
+	} else {
+		conn.recv <- &actions.MessageStreamRequest{FlowControl: &actions.FlowControl{MaxMessages: cs.MaxMsgs, MaxBytes: cs.MaxBytes}}
+		go func() {
+			ms := &actions.MessageStreamer{Client: s.Client, SubscriptionName: c11S, AutomaticNack: true}
+			done <- ms.Go(sctx, conn)
+		}()
+		sendAck = func(ids []uuid.UUID) { conn.recv <- &actions.MessageStreamRequest{Ack: ids} }
+		sendNack = func(ids []uuid.UUID) { conn.recv <- &actions.MessageStreamRequest{Nack: ids} }
+		sendNack0 = func(ids []uuid.UUID) { conn.recv <- &actions.MessageStreamRequest{Delay: ids, DelaySeconds: 0} }
+	}
 	defer func() {
 		cancel()
 		conn.Close()
@@ -205,6 +266,7 @@ func runC11(s *sut.SUT, cs c11Case) (rule, detail string, nontrivial bool) {
 		case <-done:
 		case <-time.After(5 * time.Second):
 		}
+		s.WaitStreamsIdle(5 * time.Second)
 	}()
 
 	// owes reports whether the stream has capacity for some deliverable message
@@ -310,15 +372,19 @@ func runC11(s *sut.SUT, cs c11Case) (rule, detail string, nontrivial bool) {
 		switch st.K {
 		case "ack":
 			if ids := conn.take(st.N); len(ids) > 0 {
-				conn.recv <- &actions.MessageStreamRequest{Ack: ids}
+				sendAck(ids)
 				freed["ack"] = true
 			}
 		case "nack":
-			if ids := conn.take(st.N); len(ids) > 0 {
-				conn.recv <- &actions.MessageStreamRequest{Nack: ids}
-				freed["nack"] = true
+			if !cs.Grpc {
+				if ids := conn.take(st.N); len(ids) > 0 {
+					sendNack(ids)
+					freed["nack"] = true
+				}
+				break
 			}
-		case "nack0":
+			fallthrough // over gRPC a nack IS a zero deadline
+		case "nack0", "mixed":
 			// the gRPC form of a nack: modify-deadline 0 - the message is deliverable again at once
 			c := conn
 			c.mu.Lock()
@@ -333,7 +399,21 @@ func runC11(s *sut.SUT, cs c11Case) (rule, detail string, nontrivial bool) {
 			c.mu.Unlock()
 			if ids := conn.take(st.N); len(ids) > 0 {
 				unsent = append(unsent, sizes...)
-				conn.recv <- &actions.MessageStreamRequest{Delay: ids, DelaySeconds: 0}
+				if st.K == "mixed" && cs.Grpc {
+					// the same request also extends the deadline of (up to N) other outstanding messages
+					conn.mu.Lock()
+					var ext []uuid.UUID
+					for _, id := range conn.order {
+						if len(ext) < st.N {
+							ext = append(ext, id)
+						}
+					}
+					conn.mu.Unlock()
+					sendMixed(ids, ext)
+					freed["mixed"] = true
+				} else {
+					sendNack0(ids)
+				}
 				freed["nack0"] = true
 			}
 		case "extack":
@@ -378,9 +458,10 @@ func genC11(rt *rapid.T) c11Case {
 	}
 	ns := rapid.IntRange(2, 9).Draw(rt, "nsteps")
 	for i := 0; i < ns; i++ {
-		k := rapid.SampledFrom([]string{"ack", "ack", "nack", "nack0", "nack0", "extack", "extack", "publish", "wait"}).Draw(rt, "step")
+		k := rapid.SampledFrom([]string{"ack", "ack", "nack", "nack0", "nack0", "extack", "extack", "publish", "wait", "mixed"}).Draw(rt, "step")
 		cs.Steps = append(cs.Steps, c11Step{K: k, N: rapid.IntRange(1, 3).Draw(rt, "n"), Z: rapid.IntRange(0, 2).Draw(rt, "z")})
 	}
+	cs.Grpc = rapid.IntRange(0, 2).Draw(rt, "grpc") == 0
 	return cs
 }
 
@@ -416,6 +497,9 @@ func TestC11(t *testing.T) {
 			for _, st := range cs.Steps {
 				if st.K == "nack0" {
 					sig["uses_modify_deadline_zero"] = true
+				}
+				if st.K == "mixed" && cs.Grpc {
+					sig["mixed_deadlines_in_one_request"] = true
 				}
 			}
 			failWith(rt, failure{Rule: rule, Detail: detail, Sig: sig, Replay: cs})
